@@ -468,6 +468,14 @@ def patch_rank(ctx, lib, gl, names=None, kinds=("mass", "thermal-K", "elastic-K"
 
 
 def run(ctx):
+    # 'K is PSD, M is SPD' on any connected mesh, mirrored parts included: the weighted Jacobian is |det F| element by element
+    from . import c08 as _c08
+
+    _c08.measure_rule(ctx)
+    # 'beam mass matrices carry the correct translational mass, rigid-body motions are the kernel': orthonormal member frames
+    from . import c10 as _c10
+
+    _c10.stored_frame_rule(ctx)
     from ..shared import group_loop_leak_rule as _group_loop_leak_rule
 
     _group_loop_leak_rule(ctx, "R2.9", scope=lambda f, _s=("EasyFEA.Simulations",): f.module.name.startswith(_s), min_instances=8)
